@@ -379,8 +379,14 @@ Definition firm_rule (r : rule) : rule :=
 Definition firm_sites (x : input) (aas : seq) : list nat :=
   filter (fun i => mem_nat i (raw_sites (firm_rule (in_rule x)) aas)) (sites (in_rule x) (in_exc x) aas).
 
-Definition relaxed2_products (x : input) (nf : bool) (aas : seq) : list seq :=
-  let raw := raw_sites (in_rule x) aas in
+(* residues translated from the (up to three) codons in frame directly upstream of position st, nearest
+   first: the engine digests the whole reading frame, so its look-behind also sees them *)
+Definition upstream_rl (hs : seq) (st : Z) : seq :=
+  flat_map (fun d => let p := st - 3 * d in
+                     if 0 <=? p then [codon_aa (slice hs p (p + 3))] else []) [1; 2; 3].
+
+Definition relaxed2_products_ctx (x : input) (nf : bool) (rl : seq) (aas : seq) : list seq :=
+  let raw := raw_sites_ctx (in_rule x) rl aas [] 0 in
   let hard := firm_sites x aas in
   let bs := 0%nat :: raw ++ [length aas] in
   let k := Z.to_nat (lim_k (in_lim x)) in
@@ -393,8 +399,12 @@ Definition relaxed2_products (x : input) (nf : bool) (aas : seq) : list seq :=
         ++ update protein_weights4 water4 (in_lim x) p
       else []) bs) bs.
 
+Definition relaxed2_products (x : input) (nf : bool) (aas : seq) : list seq :=
+  relaxed2_products_ctx x nf [] aas.
+
 Definition may_products_relaxed2 (x : input) (h : list variant) : list seq :=
   let hs := apply_hap (in_tx x) h in
   flat_map (fun st =>
-    flat_map (fun secs => relaxed2_products x false (fst (translate_from hs st secs))) (may_secs x h))
+    flat_map (fun secs => relaxed2_products_ctx x false (upstream_rl hs st) (fst (translate_from hs st secs)))
+             (may_secs x h))
     (may_starts x h hs).
